@@ -21,7 +21,7 @@ def handle (line : String) : String :=
     | ["fn", "c2_to_signed"], [v, w] => toString (Gen.IntegerHelper.c2_to_signed v w)
     | ["fn", "signExtend"], [v, w, nw] => toString (Gen.Helper.signExtend v w nw)
     | ["fn", "Wire.put"], [w, v] => toString (Gen.Wire.put w v)
-    | ["fn", "Wire.prepare"], [w, v] => toString (Gen.Wire.prepare w v)
+    | ["fn", "Wire.prepare"], [w, al, v] => toString (Gen.Wire.prepare w al v)
     | ["fn", "BidirWire.put"], [w, v] => toString (Gen.BidirWire.put w v)
     | ["fn", "BidirWire.prepare"], [w, v] => toString (Gen.BidirWire.prepare w v)
     | ["put"], [w, v] => toString (Bits.put w.toNat v)
